@@ -439,7 +439,7 @@ func c35Judge(r *verifkit.Run, h *c35History, out c35Outcome, desc string, stamp
 			wit["member_without_confirmation"] = seat
 			if exclValid {
 				r.Violation("done:excluded-confirmation-counted",
-					fmt.Sprintf("a signature was reported although included member %d had not confirmed it; a confirmation from a member excluded from the attempt was counted instead", seat),
+					fmt.Sprintf("a signature was reported although included member %d had not confirmed it, while a valid confirmation from a member excluded from the attempt was present (such confirmations must not count toward the total)", seat),
 					desc, wit)
 			} else {
 				r.Violation("done:result-without-every-included-confirmation",
